@@ -1,10 +1,10 @@
 package main
 
 import (
-	"go/types"
 	"fmt"
 	"go/ast"
 	"go/token"
+	"go/types"
 	"strings"
 )
 
@@ -182,7 +182,9 @@ func checkC15(p *Prog, r *Report) {
 				ok := false
 				for _, st := range p.StoresTo(nm, field) {
 					facts, _ := p.FactsAtCall(nm, st)
-					if facts.Has(func(ft Fact) bool { return ft.Op == "==" && ft.Val && p.constName(ft.Y) == "0" && p.MentionsField(ft.X, field) }) {
+					if facts.Has(func(ft Fact) bool {
+						return ft.Op == "==" && ft.Val && p.constName(ft.Y) == "0" && p.MentionsField(ft.X, field)
+					}) {
 						if as, isA := st.(*ast.AssignStmt); isA && len(as.Rhs) == 1 {
 							if lf := p.Linear(as.Rhs[0], nil); lf.OK && len(lf.Terms) == 1 && lf.Terms[""] != nil && lf.Terms[""].Sign() > 0 {
 								ok = true
@@ -435,8 +437,14 @@ func checkC15(p *Prog, r *Report) {
 			name string
 			pred func(n ast.Node) bool
 		}{
-			{"closes the IPv4 packet connections", func(n ast.Node) bool { e, ok := n.(ast.Expr); return ok && p.IsField(e, "TCPMuxDefault.connsIPv4") && closesConns["TCPMuxDefault.connsIPv4"] }},
-			{"closes the IPv6 packet connections", func(n ast.Node) bool { e, ok := n.(ast.Expr); return ok && p.IsField(e, "TCPMuxDefault.connsIPv6") && closesConns["TCPMuxDefault.connsIPv6"] }},
+			{"closes the IPv4 packet connections", func(n ast.Node) bool {
+				e, ok := n.(ast.Expr)
+				return ok && p.IsField(e, "TCPMuxDefault.connsIPv4") && closesConns["TCPMuxDefault.connsIPv4"]
+			}},
+			{"closes the IPv6 packet connections", func(n ast.Node) bool {
+				e, ok := n.(ast.Expr)
+				return ok && p.IsField(e, "TCPMuxDefault.connsIPv6") && closesConns["TCPMuxDefault.connsIPv6"]
+			}},
 			{"closes the listener", func(n ast.Node) bool {
 				return p.nodeHasCall(n, func(c *ast.CallExpr) bool { return p.CalleeName(c) == "net.Listener.Close" })
 			}},
